@@ -31,11 +31,13 @@ TECHNIQUE = "model-based stateful testing (generated op histories vs an E37 refe
 RULE = (
     "Histories of 1..40 ops over {connect, connect with a Select.req already in flight, peer close, disable, enable, "
     "Select.req, Select.rsp (status 0/1..3; matching|stale|unsolicited), Deselect.req, Deselect.rsp, Linktest.req, "
-    "Linktest.rsp, Separate.req, Reject.req, data message (W / no W), application request} in passive and active mode "
-    "with PRNG schedules and parked preemptions in _on_connected/_dispatcher_thread_function; after every op the "
+    "Linktest.rsp, Separate.req, Reject.req, data message (W / no W), application request, 1..3 Select/Deselect/Linktest "
+    "requests racing the peer's close} in passive and active mode, a quarter of them a focused family (connect, [select], "
+    "requests racing close; repeated); with PRNG schedules and parked preemptions in _on_connected, the dispatcher, "
+    "the state transition, the disconnect handler and _process_send_queue; after every op the "
     "implementation's state, the frames it sent and the messages it delivered are compared with the model. "
     "Non-trivial = history with >=1 reconnect, or >=2 select/deselect cycles, or data messages in all three states, or the "
-    "in-flight-select schedule; distinct by op sequence + schedule."
+    "in-flight-select schedule, or a request racing the close; distinct by op sequence + schedule."
 )
 ASSUMPTIONS = [
     "E37 reference model typed in from the standard's state table; T7 and linktest-timeout disconnects are outside the event alphabet",
@@ -44,12 +46,12 @@ ASSUMPTIONS = [
 ]
 BUDGET_S = {"quick": 110, "thorough": 1200}
 
-HOT = ("_on_connected", "_dispatcher_thread_function", "_on_connection_message_received", "_perform_transition", "_on_disconnected")
+HOT = ("_on_connected", "_dispatcher_thread_function", "_on_connection_message_received", "_perform_transition", "_on_disconnected", "_process_send_queue")
 
 OPS = [
     "connect", "connect_inflight_select", "peer_close", "disable", "enable",
     "select_req", "select_rsp", "deselect_req", "deselect_rsp", "linktest_req", "linktest_rsp",
-    "separate_req", "reject_req", "data", "data", "app_request", "answer_select", "app_request_open", "reply_open", "reply_open", "select_req_racing_close",
+    "separate_req", "reject_req", "data", "data", "app_request", "answer_select", "app_request_open", "reply_open", "reply_open", "select_req_racing_close", "req_racing_close",
 ]
 
 
@@ -67,8 +69,26 @@ def case_strategy(draw, max_ops=25):
         if k == "data":
             op["w"] = draw(st.integers(0, 1))
             op["kind"] = draw(st.sampled_from(["S1F1", "S6F12", "S10F3", "S7F3"]))
+        if k == "req_racing_close":
+            op["kind"] = draw(st.sampled_from(["select", "linktest", "deselect"]))
+            op["count"] = draw(st.sampled_from([1, 1, 2, 3]))
         ops.append(op)
     active = draw(st.booleans())
+    if draw(st.integers(0, 3)) == 0:
+        # focused family: connect, (select), request racing the peer's close - repeated, under a random schedule
+        ops = []
+        for _ in range(draw(st.integers(1, 3))):
+            ops.append({"op": "connect"})
+            if draw(st.booleans()):
+                ops.append({"op": "select_req"})
+            if draw(st.integers(0, 2)) == 0:
+                ops.append({"op": "data", "w": draw(st.integers(0, 1)), "kind": "S1F1"})
+            ops.append({"op": "req_racing_close", "kind": draw(st.sampled_from(["select", "linktest", "deselect"])), "count": draw(st.sampled_from([1, 1, 2, 3]))})
+        return {
+            "ops": ops,
+            "active": active,
+            "sched": {"seed": draw(st.integers(1, 2**31)), "switch": draw(st.sampled_from([0.1, 0.5])), "pprob": draw(st.sampled_from([0.02, 0.1])), "hot": list(HOT)},
+        }
     sched = draw(
         st.one_of(
             st.just({"seed": 0}),
@@ -174,13 +194,16 @@ def run_case(case, observe=None):
                 if inflight:
                     m.state = e37.SELECTED
                     stats["selects"] += 1
-            elif k == "select_req_racing_close":
-                # a Select.req is still being dispatched when the peer closes: whatever the interleaving, the endpoint
-                # must end NOT CONNECTED (the response may or may not make it onto the dying link)
-                if not peer_up or m.state != e37.NOT_SELECTED:
+            elif k in ("select_req_racing_close", "req_racing_close"):
+                # a request is still being dispatched (its response still queued) when the peer closes: whatever the
+                # interleaving, the endpoint must end NOT CONNECTED (the response may or may not make it onto the dying link)
+                kind = op.get("kind", "select")
+                if not peer_up or (kind == "select" and m.state != e37.NOT_SELECTED) or (kind == "deselect" and m.state != e37.SELECTED):
                     continue
                 collect()
-                rig.peer.send(e37.control_frame(e37.SELECT_REQ, nxt()))
+                stype = {"select": e37.SELECT_REQ, "linktest": e37.LINKTEST_REQ, "deselect": e37.DESELECT_REQ}[kind]
+                for _ in range(op.get("count", 1)):
+                    rig.peer.send(e37.control_frame(stype, nxt()))
                 rig.peer.close()
                 sim.advance(3.0)
                 m.state = e37.NOT_CONNECTED
@@ -373,6 +396,7 @@ def nontrivial(stats):
         or min(stats.get("selects", 0), stats.get("deselects", 0) + 1) >= 2
         or len(stats.get("data_states", ())) >= 2
         or stats.get("inflight", 0)
+        or stats.get("select_racing_close", 0)
     )
 
 
